@@ -213,6 +213,25 @@ let run_create toks =
              add (" " ^ (if cls = [] then "-" else S.concat "," cls))) (S.split_on_char ';' recs);
        add " D"
      with Exit -> ())
+  (* genosv RECORDS : RECORD = FORMATHEX:SAMPLEHEX,SAMPLEHEX,... ; whole VCF sample texts against the record's FORMAT keys *)
+  | ["genosv"; recs] ->
+    add "OK";
+    (try
+       List.iter (fun r ->
+           match S.split_on_char ':' r with
+           | [fmt; samples] ->
+             let keys = List.map (fun k -> List.init (S.length k) (fun i -> ZA.of_int (Char.code k.[i])))
+                 (S.split_on_char ':' (S.init (S.length fmt / 2) (fun i -> Char.chr (int_of_string ("0x" ^ S.sub fmt (2 * i) 2))))) in
+             let cls = List.map (fun h ->
+                 match vcf_sample_gt keys (bytes_of_hex h) with
+                 | None -> add " E"; raise Exit
+                 | Some g -> (match classify g with
+                     | GCalled g -> "called" ^ zs g | GMissing -> "missing" | GMultiallelic -> "multiallelic" | GPloidyErr -> "ploidy"))
+                 (S.split_on_char ',' samples) in
+             add (" " ^ S.concat "," cls)
+           | _ -> failwith "genosv record") (S.split_on_char ';' recs);
+       add " D"
+     with Exit -> ())
   | ["smapfile"; hex] ->
     let m = build_map (parse_samples_file (bytes_of_hex hex)) in
     add ("OK " ^ (if m = [] then "-" else S.concat "," (List.map (fun (n, id) -> hex_of_bytes n ^ ":" ^ zs id) m)))
@@ -308,7 +327,7 @@ let run_case line =
      | "get" | "getmut" | "getaxis" | "view" | "axisiter" | "indices" | "sum" -> run_array toks
      | "fold" | "marg" | "keep" | "project" | "pmf" | "binom" -> run_spectrum toks
      | "npyw" | "npyr" | "textw" | "read" | "fmt" | "parse" | "detect" -> run_bytes toks
-     | "classify" | "sites" | "create" | "smapfile" | "genosm" -> run_create toks
+     | "classify" | "sites" | "create" | "smapfile" | "genosm" | "genosv" -> run_create toks
      | "stat" | "viewrun" -> run_stat toks
      | "cnpy" | "cwrite" -> run_stream toks
      | _ -> add ("UNKNOWN-OP " ^ op))
